@@ -189,6 +189,9 @@ func (fv *FuncVerifier) evalCall(call *ast.CallExpr, st *State, stmt bool) []Ter
 			}
 			return fv.callYield(yc, args, st)
 		}
+		if fc, ok := fv.funcChoices[o]; ok {
+			return fv.callFuncChoice(fc, call, st)
+		}
 		if cl, ok := fv.closures[o]; ok {
 			var args []Term
 			for _, a := range call.Args {
